@@ -1038,6 +1038,298 @@ func genOidcRandom(w *rec.Writer, e *issuerEnv, r *rec.Rand, n int) {
 }
 
 // ---------------------------------------------------------------------------------------
+// histories: one long-lived authenticator and one long-lived middleware AuthFunc (as in the
+// running server), a sequence of presentations, and at every step a fresh authenticator +
+// fresh AuthFunc built from the same configuration for comparison.
+
+type histStep struct {
+	AtMs int64   `json:"at"` // not before (start second)*1000 + AtMs
+	Tok  int     `json:"tok"`
+	Hdr  hdrSpec `json:"hdr"`
+}
+
+type oidcHist struct {
+	Kind  string     `json:"kind"`
+	Cfg   cfgSpec    `json:"cfg"`
+	Toks  []tokSpec  `json:"toks"`
+	Steps []histStep `json:"steps"`
+	Tag   string     `json:"tag,omitempty"`
+}
+
+type oidcStepResult struct {
+	now       int64
+	vals      []string
+	tok       string
+	structure rec.V
+	amb       bool
+	mw        observed
+	direct    int
+	freshMw   int
+	freshDir  int
+}
+
+func observeMw(af func(context.Context) (context.Context, error), md metadata.MD, rejectCode openfgav1.AuthErrorCode) observed {
+	ctx2, err := af(metadata.NewIncomingContext(context.Background(), md))
+	o := observed{class: classify(err, rejectCode)}
+	if err == nil {
+		c, ok := authclaims.AuthClaimsFromContext(ctx2)
+		if !ok || c == nil {
+			o.class = clsOther
+			return o
+		}
+		o.subject, o.clientID = c.Subject, c.ClientID
+		for s := range c.Scopes {
+			o.scopes = append(o.scopes, s)
+		}
+		sort.Strings(o.scopes)
+	} else if ctx2 != nil {
+		o.class = clsOther
+	}
+	return o
+}
+
+func observeDirect(a authn.Authenticator, md metadata.MD, rejectCode openfgav1.AuthErrorCode) int {
+	claims, err := a.Authenticate(metadata.NewIncomingContext(context.Background(), md))
+	if (err == nil) != (claims != nil) {
+		return clsOther
+	}
+	return classify(err, rejectCode)
+}
+
+func (e *issuerEnv) newAuth(c cfgSpec) (*oidc.RemoteOidcAuthenticator, error) {
+	aud, _ := hex.DecodeString(c.Audience)
+	return oidc.NewRemoteOidcAuthenticator(e.mainIssuer(c), unhexAll(c.Aliases), string(aud), unhexAll(c.Subjects), unhexAll(c.CIC))
+}
+
+// runOidcHist does not touch the writer (it runs concurrently with the other generators).
+func runOidcHist(e *issuerEnv, h oidcHist) ([]oidcStepResult, error) {
+	a, err := e.newAuth(h.Cfg)
+	if err != nil {
+		return nil, err
+	}
+	defer a.Close()
+	af := mw.AuthFunc(a)
+	start := time.Now().Unix()
+	toks := make([]string, len(h.Toks))
+	structs := make([]rec.V, len(h.Toks))
+	for i, t := range h.Toks {
+		toks[i], structs[i] = e.build(t, start)
+	}
+	var out []oidcStepResult
+	for _, st := range h.Steps {
+		if st.Tok < 0 || st.Tok >= len(toks) {
+			continue
+		}
+		fresh, err := e.newAuth(h.Cfg)
+		if err != nil {
+			return nil, err
+		}
+		if d := time.Until(time.UnixMilli(start*1000 + st.AtMs)); d > 0 {
+			time.Sleep(d)
+		}
+		md, vals := headerValues(st.Hdr, toks[st.Tok])
+		r := oidcStepResult{vals: vals, tok: toks[st.Tok], structure: structs[st.Tok]}
+		r.now = time.Now().Unix()
+		r.mw = observeMw(af, md, openfgav1.AuthErrorCode_invalid_claims)
+		r.direct = observeDirect(a, md, openfgav1.AuthErrorCode_invalid_claims)
+		r.freshMw = observeMw(mw.AuthFunc(fresh), md, openfgav1.AuthErrorCode_invalid_claims).class
+		r.freshDir = observeDirect(fresh, md, openfgav1.AuthErrorCode_invalid_claims)
+		after := time.Now().Unix()
+		fresh.Close()
+		// a time claim crossed by the clock while the four calls ran: the step decides nothing
+		for _, c := range h.Toks[st.Tok].Claims {
+			if c.V.T == "r" && r.now < start+c.V.N && start+c.V.N <= after {
+				r.amb = true
+			}
+		}
+		out = append(out, r)
+	}
+	return out, nil
+}
+
+func writeOidcHist(w *rec.Writer, e *issuerEnv, h oidcHist, res []oidcStepResult, err error) {
+	if err != nil {
+		w.PropFail("history: the constructor refused a configuration it accepts elsewhere: "+err.Error(), h)
+		return
+	}
+	aud, _ := hex.DecodeString(h.Cfg.Audience)
+	steps := make([]rec.V, len(res))
+	for i, r := range res {
+		steps[i] = rec.L(rec.I64(r.now), valsAround(r.vals, r.tok), rec.L(rec.L(rec.S(r.tok), r.structure)), rec.Bool(r.amb),
+			rec.L(rec.I(r.mw.class), rec.S(r.mw.subject), rec.S(r.mw.clientID), rec.LS(r.mw.scopes)),
+			rec.I(r.direct), rec.I(r.freshMw), rec.I(r.freshDir))
+		w.Stat("hist.oidc.steps", 1)
+		w.Stat(fmt.Sprintf("hist.oidc.step.class.%d", r.mw.class), 1)
+		if r.amb {
+			w.Stat("hist.oidc.steps.ambiguous", 1)
+		}
+	}
+	w.Case(h, rec.I(3), rec.S(e.mainIssuer(h.Cfg)), rec.LS(unhexAll(h.Cfg.Aliases)), rec.B(aud),
+		rec.LS(unhexAll(h.Cfg.Subjects)), rec.LS(unhexAll(h.Cfg.CIC)), rec.L(steps...))
+	w.Stat("hist.oidc", 1)
+}
+
+const (
+	histLifetime = 3    // seconds: exp / iat / nbf of the short-lived tokens relative to the start
+	histAfterMs  = 4200 // first presentation after that instant (>= 1.2 s past it)
+)
+
+func (e *issuerEnv) histTokens(cfg cfgSpec) []tokSpec {
+	mk := func(m map[string]*jvSpec) []claimSpec {
+		var cs []claimSpec
+		for _, k := range []string{"iss", "sub", "aud", "exp", "iat", "nbf", "azp", "scope"} {
+			cs = addClaim(cs, k, m[k])
+		}
+		return cs
+	}
+	base := func() map[string]*jvSpec {
+		return map[string]*jvSpec{"iss": e.issValue(cfg, 0), "sub": subValue(cfg, 0), "aud": audValue(cfg, 0),
+			"exp": {T: "r", N: 3600}, "iat": {T: "r", N: -10}, "azp": {T: "s", S: "app-1"}, "scope": {T: "s", S: "read write"}}
+	}
+	with := func(k string, v *jvSpec) []claimSpec { m := base(); m[k] = v; return mk(m) }
+	return []tokSpec{
+		0: {Alg: "RS256", Kid: 1, Claims: with("exp", &jvSpec{T: "r", N: histLifetime})},       // short-lived
+		1: {Alg: "RS256", Kid: 2, Claims: mk(base())},                                          // long-lived
+		2: {Alg: "RS256", Kid: 1, Signer: 3, Claims: mk(base())},                               // signature flipped
+		3: {Alg: "RS256", Kid: 1, Claims: with("iat", &jvSpec{T: "r", N: histLifetime})},       // issued in the near future
+		4: {Alg: "RS256", Kid: 1, Claims: with("nbf", &jvSpec{T: "r", N: histLifetime})},       // not valid yet
+		5: {Alg: "RS256", Kid: 1, Claims: with("exp", &jvSpec{T: "r", N: -3600})},              // expired long ago
+		6: {Alg: "RS256", Kid: 1, Claims: with("iss", e.issValue(cfg, 2))},                     // other issuer
+		7: {Malformed: 7},                                                                      // not a JWT
+		8: {Alg: "RS256", Kid: 1, Signer: 2, Claims: mk(base())},                               // key outside the JWKS
+		9: {Alg: "RS256", Kid: 2, Claims: append(with("exp", &jvSpec{T: "r", N: histLifetime}), claimSpec{K: "cid", V: jvSpec{T: "s", S: "app-9"}})}, // short-lived, another string
+		10: {Alg: "RS256", Kid: 4, Claims: mk(base())},                                         // unknown kid
+	}
+}
+
+func oidcHistories(e *issuerEnv, r *rec.Rand) []oidcHist {
+	s := func(at int64, tok int, hv int) histStep { return histStep{AtMs: at, Tok: tok, Hdr: hdrSpec{Variant: hv}} }
+	A := int64(histAfterMs)
+	hs := []oidcHist{
+		{Cfg: cfgSubjects, Tag: "expiry", Steps: []histStep{s(0, 0, 0), s(A, 0, 0)}},
+		{Cfg: cfgSubjects, Tag: "expiry-mixed", Steps: []histStep{s(0, 0, 0), s(0, 1, 0), s(300, 0, 1), s(300, 2, 0), s(600, 0, 0), s(600, 5, 0),
+			s(A, 0, 0), s(A+100, 0, 2), s(A+100, 1, 0), s(A+300, 0, 0), s(A+300, 9, 0)}},
+		{Cfg: cfgPlain, Tag: "iat-passes", Steps: []histStep{s(0, 3, 0), s(0, 1, 0), s(300, 3, 0), s(A, 3, 0), s(A+200, 3, 1), s(A+200, 2, 0)}},
+		{Cfg: cfgSlash, Tag: "nbf-passes", Steps: []histStep{s(0, 4, 0), s(200, 4, 0), s(A, 4, 0), s(A+100, 4, 0)}},
+		{Cfg: cfgSubjects, Tag: "alternate", Steps: []histStep{s(0, 1, 0), s(0, 2, 0), s(0, 1, 0), s(0, 6, 0), s(0, 1, 1), s(0, 7, 0), s(0, 1, 11),
+			s(0, 1, 0), s(0, 8, 0), s(0, 1, 0), s(0, 10, 0), s(0, 1, 0), s(0, 10, 0), s(0, 5, 0), s(0, 1, 8), s(0, 1, 2)}},
+		{Cfg: cfgPlain, Tag: "two-short", Steps: []histStep{s(0, 9, 0), s(0, 0, 0), s(100, 9, 3), s(A, 9, 0), s(A, 0, 0), s(A+200, 9, 0)}},
+		{Cfg: cfgCicSub, Tag: "expiry", Steps: []histStep{s(0, 0, 0), s(0, 0, 0), s(A, 0, 0), s(A+200, 0, 0)}},
+	}
+	// two generated interleavings: a block before the instant, a block after it
+	for k := 0; k < 2; k++ {
+		h := oidcHist{Cfg: rec.Pick(r, []cfgSpec{cfgPlain, cfgSubjects, cfgSlash}), Tag: "generated"}
+		for i, n := 0, r.Range(4, 8); i < n; i++ {
+			h.Steps = append(h.Steps, s(int64(i*100), rec.Pick(r, []int{0, 0, 1, 2, 3, 4, 5, 6, 8, 9}), r.Intn(4)))
+		}
+		for i, n := 0, r.Range(4, 8); i < n; i++ {
+			h.Steps = append(h.Steps, s(A+int64(i*80), rec.Pick(r, []int{0, 0, 0, 1, 3, 3, 4, 4, 9, 2}), r.Intn(4)))
+		}
+		hs = append(hs, h)
+	}
+	for i := range hs {
+		hs[i].Kind = "oidchist"
+		hs[i].Toks = e.histTokens(hs[i].Cfg)
+	}
+	return hs
+}
+
+type pskHistStep struct {
+	Keys []string `json:"keys"` // hex
+	Tok  string   `json:"tok"`  // hex
+	Hdr  hdrSpec  `json:"hdr"`
+}
+
+type pskHist struct {
+	Kind  string        `json:"kind"`
+	Steps []pskHistStep `json:"steps"`
+}
+
+// runPskHist keeps one authenticator and one AuthFunc while the key list stays the same and
+// rebuilds both when it changes (a restart with a new configuration).
+func runPskHist(w *rec.Writer, h pskHist) {
+	var a *presharedkey.PresharedKeyAuthenticator
+	var af func(context.Context) (context.Context, error)
+	prev := "\x00none"
+	steps := make([]rec.V, 0, len(h.Steps))
+	code := openfgav1.AuthErrorCode_unauthenticated
+	for _, st := range h.Steps {
+		keys := unhexAll(st.Keys)
+		tokb, _ := hex.DecodeString(st.Tok)
+		md, vals := headerValues(st.Hdr, string(tokb))
+		if k := strings.Join(st.Keys, ","); k != prev {
+			prev = k
+			var err error
+			a, err = presharedkey.NewPresharedKeyAuthenticator(keys)
+			if err != nil {
+				a, af = nil, nil
+			} else {
+				af = mw.AuthFunc(a)
+			}
+		}
+		digests := make([]rec.V, len(keys))
+		for i, k := range keys {
+			d := sha256.Sum256([]byte(k))
+			digests[i] = rec.B(d[:])
+		}
+		cm, cd, cf := clsCtor, clsCtor, clsCtor
+		if a != nil {
+			cm = observeMw(af, md, code).class
+			cd = observeDirect(a, md, code)
+		}
+		if fresh, err := presharedkey.NewPresharedKeyAuthenticator(keys); err == nil {
+			cf = observeMw(mw.AuthFunc(fresh), md, code).class
+			if d := observeDirect(fresh, md, code); d != cf {
+				cf = clsOther
+			}
+		}
+		steps = append(steps, rec.L(rec.LS(keys), rec.L(digests...), rec.LS(vals), rec.I(cm), rec.I(cd), rec.I(cf)))
+		w.Stat("hist.psk.steps", 1)
+		w.Stat(fmt.Sprintf("hist.psk.step.class.%d", cm), 1)
+	}
+	w.Case(h, rec.I(4), rec.L(steps...))
+	w.Stat("hist.psk", 1)
+}
+
+func genPskHist(w *rec.Writer, r *rec.Rand, n int) {
+	st := func(keys []string, tok string, hv int) pskHistStep {
+		return pskHistStep{Keys: hexAll(keys), Tok: hex.EncodeToString([]byte(tok)), Hdr: hdrSpec{Variant: hv}}
+	}
+	k12, k3, k1 := []string{"key1", "key2"}, []string{"key3"}, []string{"key1"}
+	runPskHist(w, pskHist{Kind: "pskhist", Steps: []pskHistStep{
+		st(k12, "key1", 0), st(k12, "nope", 0), st(k12, "key1", 1), st(k12, "key2", 0), st(k12, "key3", 0), st(k12, "key1", 0),
+		st(k12, "key1", 8), st(k12, "key1", 11), st(k12, "key1", 0),
+		st(k3, "key1", 0), st(k3, "key3", 0), st(k3, "key2", 0), st(k3, "key1", 0),
+		st(k1, "key1", 0), st(k1, "key3", 0), st(k1, "key2", 0), st(k1, "key1", 2),
+		st(nil, "key1", 0), st(k12, "key1", 0),
+	}})
+	lists := [][]string{k12, k3, k1, {"", "k"}, {"a b", "a"}}
+	toks := []string{"key1", "key2", "key3", "", "k", "a b", "a", "b", "nope", "key1 ", " key1"}
+	for i := 0; i < n; i++ {
+		cur := rec.Pick(r, lists)
+		h := pskHist{Kind: "pskhist"}
+		for j, m := 0, r.Range(6, 14); j < m; j++ {
+			if r.Chance(1, 4) {
+				cur = rec.Pick(r, lists)
+			}
+			tok := rec.Pick(r, toks)
+			if r.Chance(1, 2) {
+				tok = rec.Pick(r, cur)
+			}
+			hv := 0
+			if r.Chance(1, 4) {
+				hv = r.Intn(nHdrVariants)
+				if hv == 13 || hv == 14 {
+					hv = 1
+				}
+			}
+			h.Steps = append(h.Steps, st(cur, tok, hv))
+		}
+		runPskHist(w, h)
+	}
+}
+
+// ---------------------------------------------------------------------------------------
 
 func replay(w *rec.Writer, path string) {
 	f, err := os.Open(path)
@@ -1065,6 +1357,21 @@ func replay(w *rec.Writer, path string) {
 			if json.Unmarshal([]byte(line), &c) == nil {
 				runPsk(w, c)
 			}
+		case "pskhist":
+			var h pskHist
+			if json.Unmarshal([]byte(line), &h) == nil {
+				runPskHist(w, h)
+			}
+		case "oidchist":
+			var h oidcHist
+			if json.Unmarshal([]byte(line), &h) == nil {
+				if e == nil {
+					e = newIssuerEnv()
+					defer e.close()
+				}
+				res, err := runOidcHist(e, h)
+				writeOidcHist(w, e, h, res, err)
+			}
 		case "oidc":
 			var c oidcCase
 			if json.Unmarshal([]byte(line), &c) == nil {
@@ -1087,9 +1394,29 @@ func main() {
 		return
 	}
 	r := rec.NewRand(o.Seed)
-	genPsk(w, r.Fork(), o.N/2, true)
 	e := newIssuerEnv()
 	defer e.close()
+	// the OIDC histories wait for short-lived tokens to expire: they run concurrently with
+	// everything else and are written at the end
+	hists := oidcHistories(e, r.Fork())
+	type histOut struct {
+		res []oidcStepResult
+		err error
+	}
+	outs := make([]chan histOut, len(hists))
+	for i := range hists {
+		outs[i] = make(chan histOut, 1)
+		go func(i int) {
+			res, err := runOidcHist(e, hists[i])
+			outs[i] <- histOut{res, err}
+		}(i)
+	}
+	genPsk(w, r.Fork(), o.N/2, true)
+	genPskHist(w, r.Fork(), 20)
 	genOidcCore(w, e)
 	genOidcRandom(w, e, r.Fork(), o.N)
+	for i := range hists {
+		ho := <-outs[i]
+		writeOidcHist(w, e, hists[i], ho.res, ho.err)
+	}
 }
